@@ -227,6 +227,57 @@ def run(chk):
                         ok3, _ = dag.is_zero_fp([dag.sub(at1, A1)], chk.seed, 2)
                         chk.decide(ok3, "continuity-at-low-order", fa.qname, f"coupling is not continuous at NLO for unit ratio ({inst})",
                                    where=fa.where, instance=inst)
+    # ---------------------------------------------------------------- (c) reference exactly on a matching scale, evaluated twice
+    # the first segment has zero length and is skipped, the matching acts directly on the reference values: the stored boundary
+    # condition must not be touched (the decoupling relation depends on the path only, not on how often it was evaluated)
+    n_rep = 0
+    for scheme in ("POLE", "MSBAR"):
+        for order in (2, 3, 4):
+            for nf_low, direction in ((3, "up"), (4, "up"), (4, "down"), (5, "down")):
+                inst = f"{scheme},order={order},reference on the wall,{nf_low}{'->' if direction == 'up' else '<-'}{nf_low + 1}"
+                self_ = Obj(cls)
+                aref = Arr.from_nested([dag.sym("a_ref"), dag.sym("aem_ref")])
+                self_.attrs.update(a_ref=aref, order=(order, 0), hqm_scheme=scheme, thresholds_ratios=list(ratios),
+                                   atlas=Obj(src.cls("eko.matchings.Atlas")), cache={}, method="expanded", alphaem_running=False, decoupled_running=False)
+                nf_a, nf_b = (nf_low, nf_low + 1) if direction == "up" else (nf_low + 1, nf_low)
+                s1 = pe.instantiate(seg_cls.qname, [dag.sym("wall"), dag.sym("wall"), nf_a])
+                s2 = pe.instantiate(seg_cls.qname, [dag.sym("wall"), dag.sym("mu1"), nf_b])
+                calls = []
+
+                def compute_model2(pe_, args, kwargs, calls=calls):
+                    calls.append([args[1].copy() if isinstance(args[1], Arr) else args[1]] + list(args[2:]))
+                    return Arr.from_nested([dag.sym("A"), dag.sym("AEM")])
+
+                def assume(text, env):
+                    # the first segment (wall -> wall) is decided by the evaluator itself (identical scales are close); the second has
+                    # non-negligible length
+                    return True if text == "not np.isclose(seg.origin, seg.target)" else None
+
+                pe.overrides[f"{CP}.Couplings.compute"] = compute_model2
+                pe.overrides["eko.matchings.Atlas.path"] = lambda pe_, args, kwargs: [s1, s2]
+                pe.overrides["eko.matchings.lepton_number"] = lambda pe_, args, kwargs: 3
+                pe.assume = assume
+                try:
+                    pe.apply(pe.getattr(self_, "a"), [dag.sym("mu1"), nf_b], {})
+                    pe.apply(pe.getattr(self_, "a"), [dag.sym("mu1"), nf_b], {})
+                except PERaise as e:
+                    chk.fail("matching-is-path-dependent-only", fa.qname, f"Couplings.a raises {e} ({inst})", where=fa.where, instance=inst)
+                    continue
+                finally:
+                    pe.assume = None
+                    for q in (f"{CP}.Couplings.compute", "eko.matchings.Atlas.path", "eko.matchings.lepton_number"):
+                        pe.overrides.pop(q, None)
+                n_rep += 1
+                ref_now = self_.attrs["a_ref"]
+                same_ref = isinstance(ref_now, Arr) and dag.tonode(ref_now[0]) is dag.sym("a_ref") and dag.tonode(ref_now[1]) is dag.sym("aem_ref")
+                same_in = len(calls) == 2 and dag.is_zero_fp([dag.sub(dag.tonode(calls[0][0][0]), dag.tonode(calls[1][0][0]))], chk.seed, 2)[0]
+                chk.decide(same_ref and same_in, "matching-is-path-dependent-only", fa.qname,
+                           f"{inst}: after one evaluation the stored reference coupling is "
+                           f"{dag.short(dag.tonode(ref_now[0])) if isinstance(ref_now, Arr) else ref_now} (must stay a_ref) and the second evaluation "
+                           f"starts from {dag.short(dag.tonode(calls[1][0][0])) if len(calls) == 2 else '?'}: the matching factor is applied in place to "
+                           f"the boundary condition, so the ratio across the threshold becomes fact^2, fact^3, ... with the number of calls",
+                           where=fa.where, instance=inst, how="PE, same object evaluated twice")
+    chk.floor("repeated-evaluation instances", n_rep, 20)
     chk.floor("wiring instances", n_inst, 48)
     chk.note(instances=n_inst, files=["src/eko/couplings.py", "src/eko/matchings.py"])
     chk.explanation = ("Decoupling tables compared with literature constants and RG-derived logarithms; the matching step of "
